@@ -23,7 +23,7 @@ def check(run, replay=None):
               "2100 deviations. Model: on one probe of every kind and on a sample of the deviations the extracted "
               "receiver's verdict and shares equal the real ones, and the model's adv_sender message is byte-identical to "
               "the harness adversary's. evaluations = real-receiver probes + model evaluations; non-trivial = non-honest "
-              "messages"),
+              "messages Also: a masked value re-encoded in transit with the non-canonical 32-byte encoding t + q of the same scalar (sender input chosen so that the value is small), and compensating alterations (same XOR mask in two / all bytes of mu_hash, eta, a_tilde rows)."),
         assumptions=["rejection sentences are proved as 'accepted => mu-hash collision on two different item lists / "
                      "explicit linear equations on the fresh theta' (DESIGN.md 3.3); the probability of these oracle "
                      "coincidences is not mechanised",
